@@ -370,50 +370,3 @@ Proof.
   - eexists. split; [vm_compute; reflexivity|]. vm_compute. reflexivity.
 Qed.
 
-(* non-vacuity of the phase-3 hypotheses: a schema with identifier, int, strand and nested-table fields, two operand
-   tables built from acceptable arguments (so Inv holds by C19_construct), and a 16-step program using every kind of
-   operation, erroneous ones included (a replacement column of the wrong length, indices out of range), that meets
-   run_good; the model's run has the row counts / error positions listed *)
-Definition exp_sch : schema :=
-  [(unhex "63"%string, FB KId); (unhex "6e"%string, FB KInt); (unhex "73"%string, FB KStrand);
-   (unhex "69"%string, FN [(unhex "61"%string, KInt); (unhex "71"%string, KStr)])].
-Definition exp_a0 : list colarg :=
-  [ABase [MS (unhex "6368723130"%string); MS (unhex "62"%string)]; ABase [MZ DI 28; MZ DI 8];
-   ABase [MS (unhex "2d"%string); MS (unhex "2b"%string)];
-   ANest [[MZ DI 4; MZ DI 8]; [MS (unhex "7878"%string); MS []]]].
-Definition exp_a1 : list colarg :=
-  [ABase [MS (unhex "61"%string)]; ABase [MZ DI 8]; ABase [MS (unhex "2e"%string)]; ANest [[MZ DI 12]; [MS (unhex "79"%string)]]].
-Definition exp_prog : list op :=
-  [OCatR; OSort 1; OSort 0; ODict; ORows; OSlice None None (-1); OMask [true; false; true];
-   OAdd (unhex "7a"%string) KList [ML DI [4; 8]; ML DF []]; OReplace 1 (ABase [MZ DI 0; MZ DI 4]); OReplace 1 (ABase [MZ DI 0]);
-   OIndex (-1); OIndex 5; OTake [0; -2; 7]; OCatSelf; OPandas; OIter].
-
-Lemma C19_exp_nice0 : args_nice exp_sch exp_a0.
-Proof.
-  unfold args_nice, exp_sch, exp_a0. repeat constructor; try discriminate; try (vm_compute; reflexivity); try (vm_compute; intros; discriminate).
-Qed.
-Lemma C19_exp_nice1 : args_nice exp_sch exp_a1.
-Proof.
-  unfold args_nice, exp_sch, exp_a1. repeat constructor; try discriminate; try (vm_compute; reflexivity); try (vm_compute; intros; discriminate).
-Qed.
-Example C19_program_nonvacuous :
-  exists t0 t1,
-    m_construct exp_sch exp_a0 = Some t0 /\ m_construct exp_sch exp_a1 = Some t1
-    /\ Inv exp_sch t0 /\ Inv exp_sch t1 /\ run_good exp_sch exp_sch t0 t1 exp_prog
-    /\ map (fun r => match r with MTab _ t => Z.of_nat (m_len t) | MRows rs => 100 + len rs | MErr => -1 end)
-           (m_run exp_sch t0 t1 exp_prog) = [3; 3; 3; 3; 3; 3; 2; 2; 2; -1; 101; -1; -1; 4; 4; 104].
-Proof.
-  assert (S : exp_sch <> []) by discriminate.
-  assert (R0 := construct_refines exp_sch exp_a0 S C19_exp_nice0). assert (R1 := construct_refines exp_sch exp_a1 S C19_exp_nice1).
-  cbv zeta in R0, R1.
-  destruct (m_construct exp_sch exp_a0) as [t0|] eqn:E0; [|vm_compute in E0; discriminate].
-  destruct (m_construct exp_sch exp_a1) as [t1|] eqn:E1; [|vm_compute in E1; discriminate].
-  exists t0, t1. split; [reflexivity|]. split; [reflexivity|]. split; [apply R0|]. split; [apply R1|].
-  vm_compute in E0. injection E0 as <-. vm_compute in E1. injection E1 as <-.
-  split; [|vm_compute; reflexivity].
-  assert (NK : names_ok exp_sch).
-  { unfold names_ok, exp_sch. repeat split; repeat constructor; simpl; try (vm_compute; intuition discriminate). }
-  simpl run_good.
-  repeat split; try exact NK; try exact I.
-  all: try (repeat constructor; try (vm_compute; reflexivity); try (vm_compute; intros; discriminate)).
-Qed.
